@@ -224,7 +224,7 @@ PURE_FUNCS = {'len', 'int', 'float', 'bool', 'range', 'list', 'tuple', 'str', 'a
               'zip', 'isinstance', 'round', 'type',
               # kernels of the packages that only read their arguments
               'acq', 'ipow', 'p0', 'ps0', 'acq_mat', 'acq_grid', 'ipow_product', 'front', 'condense', 'mask', 'pauli_is_onsite', 'binary_repr',
-              'pauli', 'paulis', 'Pauli', 'PauliList'}
+              'pauli', 'paulis', 'Pauli', 'PauliList', 'pauli_diagonalize1', 'pauli_diagonalize2'}
 LIB_ROOTS = {'numpy', 'np', 'torch', 'math'}
 
 
@@ -425,6 +425,31 @@ def _inline_multi(fn, body, i, st, t, uses):
     return True
 
 
+def split_unknown_tuple_assigns(fn, known_sigs):
+    """`a, b = e1, e2` whose targets are all locals without counterpart in the reference tree and whose right-hand sides do not
+    mention any of the targets becomes `a = e1; b = e2` (same values: nothing the right-hand sides read is rebound in between)."""
+    sg, _ = signatures(fn)
+    n = 0
+    for body, loops in _blocks(fn):
+        i = 0
+        while i < len(body):
+            st = body[i]
+            if isinstance(st, ast.Assign) and len(st.targets) == 1 and isinstance(st.targets[0], ast.Tuple) and isinstance(st.value, ast.Tuple) \
+                    and len(st.targets[0].elts) == len(st.value.elts) and all(isinstance(e, ast.Name) for e in st.targets[0].elts):
+                names = [e.id for e in st.targets[0].elts]
+                mentioned = {m.id for v in st.value.elts for m in ast.walk(v) if isinstance(m, ast.Name)}
+                if all(x in sg and sg[x][0] not in known_sigs for x in names) and not (set(names) & mentioned) and all(_pure(v) for v in st.value.elts):
+                    new = [ast.copy_location(ast.Assign(targets=[ast.Name(id=x, ctx=ast.Store())], value=v), st) for x, v in zip(names, st.value.elts)]
+                    body[i:i + 1] = new
+                    n += 1
+                    i += len(new)
+                    continue
+            i += 1
+    if n:
+        ast.fix_missing_locations(fn)
+    return n
+
+
 def desugar_unknown_enumerate(fn, known_sigs):
     """`for i, x in enumerate(A):` whose element variable x has no counterpart in the reference tree becomes the index loop
     `for i in range(len(A)):` with every read of x replaced by `A[i]`, provided A is a plain name / attribute chain that the
@@ -536,6 +561,7 @@ def normalise(rel, tree, kwnames=frozenset()):
         if pm:
             applied.append((qual, dict(pm)))
         known = {d for d, k, x in ref['locals']}
+        split_unknown_tuple_assigns(fn, known)
         en = desugar_unknown_enumerate(fn, known)
         if en:
             ast.fix_missing_locations(fn)
